@@ -78,6 +78,13 @@ class Ws:
         self.desc = ''
 
 
+def file_obs(lang, text):
+    """what C14 observes in one generated file: its definitions and (TS/Kotlin) its import pairs"""
+    if text is None:
+        return None
+    return (sorted(definitions(lang, text)), sorted(imports_of(lang, text)) if lang in IMPORT_LANGS else [])
+
+
 def crate_name(d):
     return d.replace('-', '_')
 
@@ -614,6 +621,7 @@ def run(chk):
                                     bad.append((f'{fname} imports {nm} from ./{mod} which does not define it', 'C14-glob-const' if known_const else None))
             # --- equality with the model (per file: some evaluated order must give exactly these bytes)
             equal = True
+            bytes_equal = True
             model_status_rc = {'ok': 0, 'err': 1, 'parse_errors': 1}.get(m0['status'])
             if model_status_rc != impl['rc']:
                 equal = False
@@ -624,8 +632,12 @@ def run(chk):
                 for fname, text in run_i['files'].items():
                     if text != impl['files'].get(fname):
                         varying = True
+                    # the property's observation (definitions and import pairs of the file) decides "as the model predicts";
+                    # a byte difference with equal observations is drift of the layout, reported without a failing input
                     if not any(v['files'].get(fname, {}).get('text') == text for _, v in variants):
-                        equal = False
+                        bytes_equal = False
+                        if not any(file_obs(lang, v['files'].get(fname, {}).get('text')) == file_obs(lang, text) for _, v in variants):
+                            equal = False
                 if any(sorted(v['files']) != sorted(run_i['files']) for _, v in variants):
                     equal = False
             texts = [{f: x['text'] for f, x in v['files'].items()} for _, v in variants]
@@ -652,6 +664,8 @@ def run(chk):
                     for fname, text in impl['files'].items():
                         if sorted(imports_of(lang, text)) != sorted(m0['files'][fname]['imports']):
                             corr.append(dict(payload, why=f'import pairs extracted from {fname} differ from the model list although the text is equal'))
+            if equal and not bytes_equal:
+                corr.append(dict(payload, why='definitions and imports agree with the model but the bytes of some file differ (layout drift)'))
             # --- the verdict table
             if not bad and equal:
                 if w < 40 and lang == 'typescript' and len(chk.samples) < 6 and xrefs:
